@@ -98,7 +98,7 @@ impl C05 {
                 cx.violation(&format!("reread-error|{}|at-{}", lef_err_class(&e), kw), json!({"error": es.chars().take(400).collect::<String>(), "written": text}));
             }
             Ok(Ok(l2)) => {
-                if l2 != *lib {
+                if !lef_same(&l2, lib) {
                     let (class, at) = lef_diff(lib, &l2);
                     cx.violation(&format!("reread-mismatch|{}", class), json!({"at": at, "written": text}));
                 } else {
@@ -196,7 +196,7 @@ impl Prop for C05 {
                             cx.violation("lefrw|failed-on-readable-library", json!({"code": st.code(), "text": text}));
                         } else {
                             match guard(|| LefLibrary::open(&pout)) {
-                                Ok(Ok(l2)) if l2 == lib => cx.count("lefrw_roundtrip_ok"),
+                                Ok(Ok(l2)) if lef_same(&l2, &lib) => cx.count("lefrw_roundtrip_ok"),
                                 Ok(Ok(l2)) => {
                                     let (class, at) = lef_diff(&lib, &l2);
                                     cx.violation(&format!("lefrw|reread-mismatch|{}", class), json!({"at": at}));
